@@ -295,6 +295,10 @@ def full_init_arrays(st: X, written: set):
         return out
     j = st.a[0].a[0]
     n = pp(st.a[1].a[1][0])
+    merged = _merged_triangular_init(st, written, j, n)
+    if merged:
+        return merged
+
     def _reads_only_done(v, done):
         """v reads work arrays only as A[j] with A initialised earlier in this
         very loop body (so B[j] = A[j] initialises B as well)."""
@@ -343,6 +347,79 @@ def full_init_arrays(st: X, written: set):
                     return {}
         else:
             return {}
+    return out
+
+
+def _merged_triangular_init(st: X, written: set, j: str, n: str) -> dict:
+    """The initialisation merged into the pair loop that uses the arrays:
+
+        for j in range(n):
+            B[j] = c ; A[j, j] = c            # leading constant stores
+            for k in range(j):
+                A[j, k] = A[k, j] = c         # leading constant stores
+                <code that touches only A[j,k], A[k,j], A[j,j], B[j], B[k]>
+
+    Every element is written with a constant before its first use in the
+    iteration (B[k], k < j, in an earlier pass of the j loop), and after the
+    loop the diagonal and both triangles of A and all of B are initialised."""
+    body = st.a[2]
+    one_d, diag = set(), set()
+    i = 0
+    while i < len(body) and body[i].k == "assign" and _const_like(body[i].a[1], written):
+        for t in body[i].a[0]:
+            if not (t.k == "index" and t.a[0].k == "name"):
+                return {}
+            idx = tuple(pp(x) for x in t.a[1])
+            if idx == (j,):
+                one_d.add(t.a[0].a[0])
+            elif idx == (j, j):
+                diag.add(t.a[0].a[0])
+            else:
+                return {}
+        i += 1
+    rest = body[i:]
+    if len(rest) != 1 or not (rest[0].k == "for" and rest[0].a[0].k == "name" and
+                              rest[0].a[1].k == "call" and
+                              pp(rest[0].a[1].a[0]) == "range" and
+                              len(rest[0].a[1].a[1]) == 1 and
+                              pp(rest[0].a[1].a[1][0]) == j):
+        return {}
+    k = rest[0].a[0].a[0]
+    kbody = rest[0].a[2]
+    seen = {}
+    m = 0
+    while m < len(kbody) and kbody[m].k == "assign" and \
+            _const_like(kbody[m].a[1], written) and all(
+                t.k == "index" and t.a[0].k == "name" and
+                tuple(pp(x) for x in t.a[1]) in ((j, k), (k, j)) for t in kbody[m].a[0]):
+        for t in kbody[m].a[0]:
+            seen.setdefault(t.a[0].a[0], set()).add(tuple(pp(x) for x in t.a[1]))
+        m += 1
+    tri = {a for a, v in seen.items() if v == {(j, k), (k, j)}}
+    if not tri or m == 0:
+        return {}
+    two_d = tri & diag
+    ok2 = {(j, k), (k, j), (j, j), (k, k)}
+    ok1 = {(j,), (k,)}
+    for x in walk(kbody[m:]):
+        if not isinstance(x, X):
+            continue
+        if x.k == "index" and x.a[0].k == "name" and x.a[0].a[0] in written:
+            idx = tuple(pp(y) for y in x.a[1])
+            a = x.a[0].a[0]
+            if a in two_d and idx in ok2:
+                continue
+            if a in one_d and idx in ok1:
+                continue
+            return {}
+    # no bare use of a work array in the loop
+    for x in walk(kbody[m:]):
+        if isinstance(x, X) and x.k in ("call",):
+            for arg in x.a[1]:
+                if arg.k == "name" and arg.a[0] in written:
+                    return {}
+    out = {a: [n] for a in two_d}
+    out.update({a: [n] for a in one_d})
     return out
 
 
